@@ -1,3 +1,68 @@
-import Mwp.Spec.CalculusInf
+/-
+  C08 — Loop mode: the per-variable flags are nested (m ⇒ w ⇒ p), an unbounded variable has no
+  flag, and a bounded variable carries a choice object that is not infinite (model level).
+  Helper lemmas: Mwp/Lemmas/Misc08.lean.
+-/
+import Mwp.Lemmas.Misc08
 namespace Mwp.Props.C08
+open Mwp Mwp.Analysis Mwp.LoopAnalysis Mwp.Misc08
+
+/-- `get_result`: the m / w / p flags form a ladder -/
+theorem flags_nested (rel : Relation) (index : Nat) (v : String) (r : VRes)
+    (h : getResult rel index v = .ok r) :
+    (r.isM = true → r.isW = true) ∧ (r.isW = true → r.isP = true) := by
+  obtain ⟨c, _, rfl | rfl | rfl⟩ := getResult_inv rel index v r h <;> simp
+
+theorem unbounded_flags (v : String) :
+    (VRes.unbounded v).isM = false ∧ (VRes.unbounded v).isW = false ∧ (VRes.unbounded v).isP = false :=
+  ⟨rfl, rfl, rfl⟩
+
+/-- a result of `get_result` always has the p flag and a choice object that is not infinite -/
+theorem getResult_choice_not_infinite (rel : Relation) (index : Nat) (v : String) (r : VRes)
+    (h : getResult rel index v = .ok r) :
+    ∃ c, r.choices = some c ∧ Choices.infinite c = false := by
+  obtain ⟨c, hc, rfl | rfl | rfl⟩ := getResult_inv rel index v r h <;> exact ⟨c, rfl, hc⟩
+
+/-- every variable result of `maybeResult` has nested flags -/
+theorem maybeResult_flags_nested (rel : Relation) (index : Nat) (pick : Option (List Nat))
+    (rs : List VRes) (h : maybeResult rel index pick = .ok rs) :
+    ∀ r ∈ rs, (r.isM = true → r.isW = true) ∧ (r.isW = true → r.isP = true) := by
+  intro r hr
+  rcases maybeResult_inv rel index pick rs h r hr with ⟨v, rfl⟩ | ⟨v, hv⟩
+  · simp [VRes.unbounded]
+  · exact flags_nested rel index v r hv
+
+/-- in `maybeResult`, a variable is reported bounded (p flag) only with a non-infinite choice object -/
+theorem maybeResult_bounded_has_choice (rel : Relation) (index : Nat) (pick : Option (List Nat))
+    (rs : List VRes) (h : maybeResult rel index pick = .ok rs) :
+    ∀ r ∈ rs, r.isP = true → ∃ c, r.choices = some c ∧ Choices.infinite c = false := by
+  intro r hr hp
+  rcases maybeResult_inv rel index pick rs h r hr with ⟨v, rfl⟩ | ⟨v, hv⟩
+  · simp [VRes.unbounded] at hp
+  · exact getResult_choice_not_infinite rel index v r hv
+
+/-! ## non-vacuity: `while (x) { x = y + y; z = z * z; u = y; }` — `z` fails, `x` is w-bounded
+    (third alternative only), `u`, `y` are m-bounded -/
+
+private def loop1 : Node := .while_ (.id "x") (.compound (some [
+  .assign "=" (.id "x") (.binop "+" (.id "y") (.id "y")),
+  .assign "=" (.id "z") (.binop "*" (.id "z") (.id "z")),
+  .assign "=" (.id "u") (.id "y")]))
+
+set_option maxRecDepth 8000 in
+example : ((inspectRel loop1).bind fun (rel, i, _) => getResult rel i "x").toOption.map
+    (fun r => (r.isM, r.isW, r.isP)) = some (false, true, true) := by decide
+set_option maxRecDepth 8000 in
+example : ((inspectRel loop1).bind fun (rel, i, _) => getResult rel i "y").toOption.map
+    (fun r => (r.isM, r.isW, r.isP)) = some (true, true, true) := by decide
+set_option maxRecDepth 8000 in
+example : ((inspectRel loop1).bind fun (rel, i, _) => getResult rel i "x").toOption.map
+    (fun r => r.choices.map (fun c => c.valid)) = some (some [[[2], [0, 1, 2]]]) := by decide
+-- `maybeResult` succeeds with a mix of unbounded and bounded variables
+set_option maxRecDepth 8000 in
+example : ((inspectRel loop1).bind fun (rel, i, _) => maybeResult rel i (some [2, 0])).toOption.map
+    (fun rs => rs.map fun r => (r.name, r.isM, r.isW, r.isP))
+    = some [("z", false, false, false), ("u", true, true, true), ("x", false, true, true),
+        ("y", true, true, true)] := by decide
+
 end Mwp.Props.C08
